@@ -239,6 +239,20 @@ def r2(ctx):
                 ok = True
             elif d is not None:
                 ok = _right_aligned(d, cand)
+            if not ok and not isinstance(idx, ast.Name):
+                # an index expression over locals (e.g. a loop-invariant
+                # offset hoisted out of the loop: first + i): decided on its
+                # flow-sensitive expansion.  A local bound again at or after
+                # the store could reach it around the loop: not expanded.
+                keep = {x.id for x in ast.walk(cand)
+                        if isinstance(x, ast.Name)}
+                free = {x.id for x in ast.walk(idx)
+                        if isinstance(x, ast.Name)} - keep
+                if all(a.lineno < st.lineno for x in free
+                       for a in U.assigns_of(fi.node, x)):
+                    ex = U.value_at(fi.node, idx, st.lineno,
+                                    keep=tuple(keep))
+                    ok = _right_aligned_terms(ex, cand)
         ctx.require(ok, 'C15.R2', fi, st,
                     "writer must index _peak['duct'] right-aligned "
                     '(-1 or len(_peak[duct]) - n + i)',
@@ -340,6 +354,19 @@ def _right_aligned(d, cand):
             if src(ast.parse(form, mode='eval').body) == src(d):
                 return True
     return False
+
+
+def _right_aligned_terms(d, cand):
+    """The same fact as _right_aligned decided on the signed terms of a
+    +/- chain in any association: {+len(self._peak['duct']), +<i>, -<n>}."""
+    if not isinstance(cand, ast.Subscript) or not isinstance(d, ast.BinOp):
+        return False
+    X, i = src(cand.value), src(cand.slice)
+    terms = U.linear_terms(d)
+    pos = sorted(t for sgn, t in terms if sgn > 0)
+    neg = [t for sgn, t in terms if sgn < 0]
+    return pos == sorted(["len(self._peak['duct'])", i]) and \
+        neg in (['%s.shape[0]' % X], ['len(%s)' % X])
 
 
 # ---------------------------------------------------------------------------
